@@ -129,6 +129,9 @@ func NewExec(in *Input) (*Exec, error) {
 		rl: map[int]int{}, subs: map[int]int{}, nfr: 1,
 		mapping: seq.Mapping{"k": seq.NewSingleType(seq.TokenizerTypeKeyword, "", 0)}}
 	verifhook.Set(func(name string) {
+		if _, ok := hookCode[name]; !ok {
+			return // a schedule point of another property (e.g. cache.*): not a step boundary of this model
+		}
 		c := make(chan struct{})
 		e.ev <- event{hook: name, park: c}
 		<-c
